@@ -15,8 +15,7 @@ HARNESSES = [
 import copy as _copy
 _h4 = _copy.deepcopy(HARNESSES[0])
 _h4.update({'name': 'h_toy4', 'tiers': ['thorough'], 'covers': [1, 2, 3, 4, 5, 7, 9, 20],
-            'rungs': {'thorough': [{'defines': ['NED=4', 'NEND=1', 'NOSTEP3'], 'bound': 'as the next rung plus 1 endorsement with symbolic containing/endorsed/block-of-proof', 'timeout': 1500},
-                                   {'defines': ['NED=4', 'NEND=0', 'NOSTEP3'], 'bound': 'ED tree: every shape on 4 blocks (forks below a failing block), optional AddBlock per block with symbolic SP parent, no endorsements, one failing command at any block/group/position; history setState, {setState|comparePopScore}, return to the first target (no re-activation probe)', 'timeout': 1500}]}})
+            'rungs': {'thorough': [{'defines': ['NED=4', 'NEND=0', 'NOSTEP3'], 'bound': 'ED tree: every shape on 4 blocks (forks below a failing block), optional AddBlock per block with symbolic SP parent, no endorsements, one failing command at any block/group/position; history setState, {setState|comparePopScore}, return to the first target (no re-activation probe)', 'timeout': 1500}]}})
 HARNESSES.append(_h4)
 import importlib.util as _ilu
 _rp = _ilu.spec_from_file_location('realspec', os.path.join(os.path.dirname(os.path.abspath(__file__)), '..', 'real', 'spec.py'))
